@@ -53,6 +53,16 @@ func (c *Conn) ResetSession(ctx context.Context) error {
 	return conn.ResetSession(ctx)
 }
 
+// CheckNamedValue lets the target driver check and convert the arguments
+// exactly as it does without the proxy (database/sql otherwise falls back to
+// its default converter, which e.g. refuses uint64 values with the high bit set).
+func (c *Conn) CheckNamedValue(nv *driver.NamedValue) error {
+	if checker, ok := c.targetConn.(driver.NamedValueChecker); ok {
+		return checker.CheckNamedValue(nv)
+	}
+	return driver.ErrSkip
+}
+
 // Prepare returns a prepared statement, bound to this connection.
 func (c *Conn) Prepare(query string) (driver.Stmt, error) {
 	s, err := c.targetConn.Prepare(query)
